@@ -399,6 +399,23 @@ func (u *Universe) extend(p Path, s Sel, busy map[ssa.Value]bool) []Path {
 			return res
 		}
 	case *ssa.Call:
+		if BuiltinName(r) == "append" && len(p.Sels) == 0 && s.F == nil && len(r.Call.Args) == 2 && !u.callBusy[r] {
+			// elements of append(a, b...) are the elements of a and of b
+			u.callBusy[r] = true
+			var out []Path
+			elems := u.ContainerElems(r.Call.Args[1])
+			for _, ev := range elems {
+				out = append(out, u.pathsOf(ev, busy)...)
+			}
+			if len(elems) == 0 {
+				out = append(out, u.extendAll(u.pathsOf(r.Call.Args[1], busy), s, busy)...)
+			}
+			out = append(out, u.extendAll(u.pathsOf(r.Call.Args[0], busy), s, busy)...)
+			delete(u.callBusy, r)
+			if len(out) > 0 {
+				return dedupPaths(out)
+			}
+		}
 		if res, ok := u.throughCall(r, np, busy); ok {
 			return res
 		}
